@@ -1,5 +1,6 @@
 import PilotaModel.Lemmas.AsyncGen
 import PilotaModel.Lemmas.AsyncGenConv
+import PilotaModel.Lemmas.AsyncGenC
 import PilotaModel.Lemmas.AsyncBinRV
 import PilotaModel.Lemmas.AsyncCmpSkip
 import PilotaModel.Lemmas.MsgSim
@@ -283,6 +284,26 @@ theorem emitted_async_eq_sync (e : Endian) (d : Doc) (n : String) (s : Stream) (
   · exact emitted_async_ok_only_if_sync_ok e d n s hb v k
   · rintro ⟨rest, h1, rfl⟩
     exact emitted_async_eq_sync_ok e d n (flat s) hb v rest h1 s rfl
+
+/-! compact async protocol -/
+
+theorem emitted_async_compact_chunk_independent (d : Doc) (n : String) (s s' : Stream) (h : flat s = flat s') :
+    adecodeC d n s = adecodeC d n s' := by
+  simp only [adecodeC, pulled_flat, h]
+
+/-- compact: if the emitted in-memory `decode` (fresh reader state) returns `v` leaving `rest`, the emitted `decode_async`
+returns `v` for every delivery schedule and pulls exactly the bytes consumed.  Partial: the converse direction is proved for
+the binary family only (`emitted_async_ok_only_if_sync_ok`); for compact it is checked by T1. -/
+theorem emitted_async_compact_eq_sync_ok_partial (d : Doc) (n : String) (bs : Bytes) (v : TVal) (cr' : Compact.CR) (rest : Bytes)
+    (h : decode cmpRd d n (({} : Compact.CR), bs) = .ok (v, (cr', rest))) (s : Stream) (hs : flat s = bs) :
+    adecodeC d n s = .ok (v, bs.length - rest.length) := by
+  simp only [adecodeC, pulled_flat, hs]
+  unfold decode at h
+  have hr : cmpRd.remaining (({} : Compact.CR), bs) = bs.length := rfl
+  rw [hr] at h
+  have := (adecC_sim d (3 * bs.length + 3) (3 * bs.length + 8)).1 (.ref n) {} bs v cr' rest (Nat.le_refl _) h
+  rw [runF_bind, this]
+  rfl
 
 end Emitted
 end Pilota.Props.C12
